@@ -75,6 +75,28 @@ Definition call_with_state_hook (kernel : list (list (T N)) -> list (list (T N))
 
 Definition clamp_kernel (lo hi : option (T N)) : list (list (T N)) -> list (list (T N)) :=
   map (map (clamp lo hi)).
+
+(* ---- one run opportunity of a numeric state hook on the value currently reachable through the
+   attribute path (rgetattr at run time; the hook keeps no reference to the target) ----
+   fire: the dispatch decision (module call: `fires`; manual call: `manual_fires`). *)
+Definition manual_fires (reg force ignore te ee training : bool) : bool :=
+  (reg || force) && (ignore || fires true te ee training).
+
+Definition hook_step (kernel : list (list (T N)) -> list (list (T N))) (fire : bool)
+           (data : list (list (T N))) : list (list (T N)) :=
+  if fire then kernel data else data.
 End Norm.
+
+(* data types of the target attribute: 0 bool, 1 int16, 2 int32, 3 int64, 4 float32, 5 float64 (the default
+   dtype of the harness).  torch.clamp(tensor, min, max) with Python-number bounds: a floating tensor keeps its
+   type; an integral / bool tensor is promoted to the default floating type if a bound is a Python float,
+   otherwise bool becomes int64 and integers keep their type.  (So the value moved onto a fractional bound
+   is stored exactly.) *)
+Definition is_float_dt (dt : nat) : bool := Nat.leb 4 dt.
+Definition bound_is_float (b : option bool) : bool := match b with Some true => true | _ => false end.
+Definition clamp_dtype (dt : nat) (lo_float hi_float : option bool) : nat :=
+  if is_float_dt dt then dt
+  else if bound_is_float lo_float || bound_is_float hi_float then 5
+  else if Nat.eqb dt 0 then 3 else dt.
 
 Arguments PInf {N}. Arguments PNegInf {N}. Arguments POne {N}. Arguments PTwo {N}. Arguments PReal {N} p.
